@@ -160,7 +160,7 @@ func (e *Engine) execLookup(st *State, fr *Frame, x *ssa.Lookup, pos string) {
 func (e *Engine) noteMapWrite(st *State, mi mapInfo, ref Term) {
 	for it, tag := range st.iterSnap {
 		if tag == mi.tag {
-			st.iterMod[it] = Or(st.iterMod[it], Eq(ref, st.iterRef[it]))
+			st.iterMod[it] = Or(st.iterMod[it], Eq(ref, st.iterRef[it])) // one update per iterator: order irrelevant
 		}
 	}
 }
